@@ -67,11 +67,23 @@ func HarnessC01Source() {
 		t := ts[verifChoice(len(ts))]
 		verifObserve("tag", t)
 		src = "{% " + t + " " + symString(b) + " %}"
-	default: // variable with a filter and a symbolic parameter text
+	case 6: // symbolic bytes as arguments of END tags and intermediate tags (else / elif / empty)
+		forms := []string{
+			"{% block bb %}x{% endblock \x00 %}", "{% if a %}x{% endif \x00 %}", "{% if a %}x{% else \x00 %}y{% endif %}", "{% if a %}x{% elif \x00 %}y{% endif %}",
+			"{% for i in l %}x{% endfor \x00 %}", "{% for i in l %}x{% empty \x00 %}y{% endfor %}", "{% with c=1 %}x{% endwith \x00 %}", "{% filter lower %}x{% endfilter \x00 %}",
+			"{% macro mm() %}x{% endmacro \x00 %}", "{% autoescape off %}x{% endautoescape \x00 %}", "{% spaceless %}x{% endspaceless \x00 %}", "{% comment %}x{% endcomment \x00 %}",
+			"{% ifequal a b %}x{% endifequal \x00 %}", "{% ifequal a b %}x{% else \x00 %}y{% endifequal %}", "{% ifnotequal a b %}x{% endifnotequal \x00 %}", "{% ifchanged %}x{% endifchanged \x00 %}", "{% ifchanged a %}x{% else \x00 %}y{% endifchanged %}",
+		}
+		f := forms[verifChoice(len(forms))]
+		i := indexOf(f, "\x00")
+		src = f[:i] + symString(b) + f[i+1:]
+	case 5, 7: // variable with a filter and a symbolic parameter text
 		fs := c01Filters()
 		f := fs[verifChoice(len(fs))]
 		verifObserve("filter", f)
 		src = "{{ b|" + f + ":" + symString(b) + " }}"
+	default:
+		src = symString(a)
 	}
 	verifObserve("src", src)
 	c01CompileExec(src)
